@@ -18,7 +18,7 @@ SWAP = {'==': '==', '!=': '!=', '<': '>', '<=': '>=', '>': '<', '>=': '<='}
 
 
 def floors(tier):
-    return {'set:unit_pairs': 607, 'conversions': 20000, 'comparisons': 200000, 'cmp_determined': 50000, 'cmp_same_magnitude': 20000}
+    return {'set:unit_pairs': 607, 'conversions': 20000, 'comparisons': 200000, 'cmp_determined': 50000, 'cmp_same_magnitude': 20000, 'reused_operand_comparisons': 20000}
 
 
 def n_cases(tier):
@@ -249,6 +249,44 @@ def one_pair(ctx, idx, kind, u1, u2, tier):
         for kb in family_kinds(kind):
             if SI.SIGN.get(kb) != '>0':
                 check_comparisons(ctx, kind, kb, u1, u2, 0.0, 0.0, case)
+    reused_operand(ctx, kind, u1, u2, rng, case)
+
+
+def reused_operand(ctx, kind, u1, u2, rng, case):
+    """one object used as the right operand (and then as the left one) of comparisons against operands written in *several*
+    units: a comparison must not depend on what the object was compared with before"""
+    K = lib(kind)
+    x = float(f'{10 ** rng.uniform(-3, 4):.4g}')
+    try:
+        b = K(x, u2)
+    except ValueError:
+        return
+    sb = SI.to_si(kind, x, u2)
+    us = SI.units(kind)
+    for j in range(6):
+        ua = us[(us.index(u1) + j) % len(us)]
+        f = [0.5, 2.0, 0.999, 1.001, 30.0, 1 / 60][j]
+        av = SI.convert(kind, x * f, u2, ua)
+        try:
+            a = K(av, ua)
+        except ValueError:
+            continue
+        sa = SI.to_si(kind, av, ua)
+        # keep clear of the library's absolute 1e-12 tolerance (defect D9 is judged by check_comparisons with its classifier):
+        # the operands must differ by more than 1e-9 in *both* units
+        if abs(av - SI.convert(kind, x, u2, ua)) <= 1e-9 or abs(x - SI.convert(kind, av, ua, u2)) <= 1e-9:
+            ctx.count('reused_operand_skipped_d9_zone')
+            continue
+        for (p_, q_, sp, sq) in ((a, b, sa, sb), (b, a, sb, sa)):
+            for opn, opf in OPS.items():
+                got = opf(p_, q_)
+                exp = opf(sp, sq)
+                ctx.count('comparisons')
+                ctx.count('reused_operand_comparisons')
+                if got != exp:
+                    ctx.violation('C05:comparison-depends-on-operand-history', {'op': opn, 'left': [p_.value, p_.unit], 'right': [q_.value, q_.unit], 'got': got,
+                                                                               'si_oracle': exp, 'reused_operand': [x, u2], 'sequence_index': j}, case)
+                    return
 
 
 def shard(ctx):
